@@ -202,7 +202,7 @@ pub struct StreamWorld {
     events: usize,
     last_was_special: bool,
     last_reject: Option<&'static str>,
-    err_texts: std::cell::RefCell<std::collections::BTreeMap<(usize, usize), String>>,
+    err_texts: std::cell::RefCell<std::collections::BTreeMap<(String, usize, usize), String>>,
 }
 
 const SENTINEL: u8 = 0xC3;
@@ -338,10 +338,10 @@ impl StreamWorld {
     }
 
     /// Judgements that apply to every delivery whatever it was (C04, C17).
-    fn judge_errtext(&self, obs: &PullObs, ct_len: usize, ad_len: usize, out: &mut Out) {
+    fn judge_errtext(&self, obs: &PullObs, kind: &str, ct_len: usize, ad_len: usize, out: &mut Out) {
         if let (PullResult::Reject, Some(t)) = (&obs.res, &obs.err_text) {
             let mut m = self.err_texts.borrow_mut();
-            match m.get(&(ct_len, ad_len)) {
+            match m.get(&(kind.to_string(), ct_len, ad_len)) {
                 Some(prev) if prev != t => out.violate(
                     "C17",
                     "c17.errtext",
@@ -350,7 +350,7 @@ impl StreamWorld {
                 ),
                 Some(_) => out.probe("c17.errtext_compared"),
                 None => {
-                    m.insert((ct_len, ad_len), t.clone());
+                    m.insert((kind.to_string(), ct_len, ad_len), t.clone());
                 }
             }
         }
@@ -918,7 +918,7 @@ impl World for StreamWorld {
                     }
                     return;
                 }
-                self.judge_errtext(&obs, ct.len(), ad.as_ref().map(|a| a.len()).unwrap_or(0), out);
+                self.judge_errtext(&obs, kind.kind(), ct.len(), ad.as_ref().map(|a| a.len()).unwrap_or(0), out);
                 out.cell(&format!("wrong|{}|{}|{}|{}", self.cfg.counter.name(), kind.kind(), tag_class(next.tag), flavour.name()));
                 let accepted = matches!(obs.res, PullResult::Accept(..));
                 out.note(&format!("deliver wrong {} identical={} -> {}", kind.kind(), identical, match &obs.res { PullResult::Accept(..) => "accept", PullResult::Reject => "reject", PullResult::Unwind(..) => "unwind" }));
